@@ -26,7 +26,7 @@ ASSUMPTIONS = [
 ]
 MIN_COUNTERS = {
     "quick": {"runs": 1000, "programs": 400, "term_scenarioComplete": 100, "term_timeLimit": 100, "term_terminatedByBehavior": 40, "term_terminatedByMonitor": 20, "term_simulationTerminationCondition": 20, "modular_form": 100, "multi_agent": 150, "nonidentity_schedule": 300},
-    "thorough": {"runs": 40000, "programs": 10000, "term_scenarioComplete": 2500, "term_timeLimit": 2500, "term_terminatedByBehavior": 1000, "term_terminatedByMonitor": 500, "term_simulationTerminationCondition": 500, "modular_form": 2500, "multi_agent": 4000, "nonidentity_schedule": 8000},
+    "thorough": {"runs": 11000, "programs": 5000, "term_scenarioComplete": 1200, "term_timeLimit": 1200, "term_terminatedByBehavior": 500, "term_terminatedByMonitor": 250, "term_simulationTerminationCondition": 250, "modular_form": 1200, "multi_agent": 2000, "nonidentity_schedule": 3500},
 }
 MANIFEST_ENTRY = {
     "technique": "runtime monitoring: scheduler event log of real simulations checked against an executable model of the documented step order (history + reference model), under permuted agent schedules",
@@ -338,7 +338,7 @@ def compare(m, r):
 
 
 def plan(tier, seed):
-    n_prog = 560 if tier == "quick" else 12000
+    n_prog = 560 if tier == "quick" else 6400
     n_sh = 16 if tier == "quick" else 64
     return [{"shard": i, "programs": n_prog // n_sh, "timeout": 1500 if tier == "quick" else 3400} for i in range(n_sh)]
 
